@@ -130,42 +130,114 @@ def check_mapping_compares(idx: Index, rep: Report, tier: str):
                       f"jw with up_then_down because None reaches the encoder")
 
 
+class _StopFold(Exception):
+    pass
+
+
 def check_encoder_args(idx: Index, rep: Report):
+    """operator_expectation folded up to its call of the encoder (the symmetry-operator builders and the encoder replaced by recorders; the fold stops at the
+    encoder): for 'N', 'Sz', 'S^2', a FermionOperator and every choice of the solver's mapping / ordering, the operator that reaches the encoder is the one
+    requested - a built-in one generated for the interleaved ordering on the molecule's active orbitals, so that the ordering is applied exactly once, by the
+    encoder - and the encoder receives the solver's own mapping and ordering and the register size, electron number and spin of the molecule (or the
+    caller's).  Decided on what reaches the encoder, not on how the dispatch is written (if-chain, table of builders, ...)."""
+    from ..consteval import Raised, Rec, Undecidable
+    from ..rules import circuitsem as cs
     rule = "K8.encoding-args"
-    build = idx.function(f"{VQE}::VQESolver.build")
-    ref_calls = sib.calls_to(build, "fermion_to_qubit_mapping")
-    if not ref_calls:
-        raise AnalysisError("VQESolver.build: encoder call not found")
-    ref = {k: sib.source_of(build, v) for k, v in sib.bound_args(ref_calls[0], F2Q_PARAMS).items()}
     f = idx.function(f"{VQE}::VQESolver.operator_expectation")
-    calls = sib.calls_to(f, "fermion_to_qubit_mapping")
-    if not calls:
-        raise AnalysisError("operator_expectation: encoder call not found")
-    got = {k: sib.source_of(f, v) for k, v in sib.bound_args(calls[0], F2Q_PARAMS).items()}
-    via = {"n_spinorbitals": "n_active_sos", "n_electrons": "n_active_electrons", "spin": "spin"}
-    for k in ("mapping", "up_then_down"):
-        rep.decide(got.get(k) == ref.get(k), rule, f, calls[0], text=f"operator_expectation: {k}={got.get(k)}", what=f"symmetry operators are encoded with the solver's own {k}",
-                   reason=f"{k}={got.get(k)}, Hamiltonian built with {ref.get(k)}")
-    for k, p in via.items():
-        rep.decide(got.get(k) == p and p in f.params, rule, f, calls[0], text=f"operator_expectation: {k}={got.get(k)} (parameter)",
-                   what=f"{k} comes from the caller or, by default, from the molecule", reason=f"{k}={got.get(k)}")
-    rep.decide(got.get("fermion_operator") == "exp_op", rule, f, calls[0], text="operator_expectation encodes the requested operator", what="the operator encoded is the one requested",
-               reason=f"fermion_operator={got.get('fermion_operator')}")
-    # symmetry operators are generated for the interleaved ordering and re-ordered by the encoder (up_then_down applied once)
-    gens = [c for c in own_nodes(f.node) if isinstance(c, ast.Call) and norm(c.func).split(".")[-1] in ("number_operator", "spinz_operator", "spin2_operator")]
-    rep.floor("symmetry operator generators", len(gens), 3)
-    for g in gens:
-        kws = {k.arg: norm(k.value) for k in g.keywords}
-        ok = norm(g.args[0]) == "n_active_mos" and kws.get("up_then_down") == "False"
-        rep.decide(ok, rule, f, g, text=f"{norm(g.func).split('.')[-1]}(n_active_mos, up_then_down=False)",
-                   what="the fermionic symmetry operator is built in interleaved order; the re-ordering is applied exactly once, by the encoder",
-                   reason=f"generator called as {norm(g)}")
-    table = {}
-    for n_ in ast.walk(f.node):
-        if isinstance(n_, ast.If) and isinstance(n_.test, ast.Compare) and norm(n_.test.left) == "operator" and isinstance(n_.test.comparators[0], ast.Constant):
-            table[n_.test.comparators[0].value] = norm(n_.body[0].value.func).split(".")[-1] if isinstance(n_.body[0], ast.Assign) and isinstance(n_.body[0].value, ast.Call) else None
-    rep.decide(table == {"N": "number_operator", "Sz": "spinz_operator", "S^2": "spin2_operator"}, rule, f, f.node, text="'N' -> number, 'Sz' -> spin-z, 'S^2' -> total spin",
-               what="each symmetry label selects its own operator", reason=f"label table {table}")
+    builders = {"number_operator": "N", "spinz_operator": "Sz", "spin2_operator": "S^2"}
+
+    class _Mol:
+        _sa_model = True
+        n_active_mos, n_active_sos, n_active_electrons, active_spin = 3, 6, 4, 2
+
+        def __bool__(self):
+            return True
+
+    class _Ans:
+        _sa_model = True
+        var_params = [0.1]
+
+    class _FOp:
+        _sa_model = True
+    n = 0
+    for mapping, utd in (("jw", False), ("BK", True), ("scbk", True), ("JKMN", False)):
+        for label, operator, extra in (("N", "N", {}), ("Sz", "Sz", {}), ("S^2", "S^2", {}), ("a FermionOperator", _FOp(), {}),
+                                       ("N with the caller's sizes", "N", {"n_active_mos": 2, "n_active_electrons": 2, "n_active_sos": 4, "spin": 0})):
+            seen = {}
+
+            def gen(tag):
+                def _g(a, k):
+                    return ("built-in", tag, tuple(a), tuple(sorted(k.items())))
+                return _g
+
+            def encoder(a, k):
+                seen.update(k)
+                if a:
+                    seen["positional"] = a
+                raise _StopFold()
+            ctors = {"fermion_to_qubit_mapping": encoder}
+            for bname, tag in builders.items():
+                ctors[bname] = gen(tag)
+                ctors["agen.fermionic_operators." + bname] = gen(tag)
+            fo = cs.make_folder(idx, VQE, ctors=ctors)
+
+            class _Builder:
+                _sa_model = True
+
+                def __init__(self, tag):
+                    self.tag = tag
+
+                def __call__(self, *a, **k):
+                    return ("built-in", self.tag, tuple(a), tuple(sorted(k.items())))
+
+            class _Ops:
+                _sa_model = True
+                number_operator, spinz_operator, spin2_operator = _Builder("N"), _Builder("Sz"), _Builder("S^2")
+
+            class _Agen:
+                _sa_model = True
+                fermionic_operators = _Ops()
+            fo.env["agen"] = _Agen()          # the builders as values (a table of builders instead of an if-chain)
+            fo.isinstance_hook = lambda v, t: (isinstance(v, _FOp) if "FermionOperator" in t and "str" not in t else (isinstance(v, (str, _FOp)) if "str" in t and "FermionOperator" in t
+                                               else (False if "QubitOperator" in t else None)))
+            me = Rec("VQESolver", {"molecule": _Mol(), "qubit_mapping": mapping, "up_then_down": utd, "ansatz": _Ans(), "reference_circuit": "REF"})
+            args = {"self": me, "operator": operator, "var_params": None, "n_active_mos": None, "n_active_electrons": None, "n_active_sos": None, "spin": None, "ref_state": None}
+            args.update(extra)
+            try:
+                fo.run_function(f.node, args)
+                raise AnalysisError(f"operator_expectation({label}): the encoder was not reached")
+            except _StopFold:
+                pass
+            except Undecidable as e:
+                raise AnalysisError(f"operator_expectation not foldable up to the encoder ({label}, {mapping}): {e}")
+            except Raised as e:
+                n += 1
+                rep.violation(rule, f, f.node, text=f"operator_expectation({label}) with {mapping}, up_then_down={utd}", what="the expectation value of a symmetry operator is defined for every encoding",
+                              reason=f"raises {e.exc_type}")
+                continue
+            bad = []
+            fop = seen.get("fermion_operator")
+            mos = extra.get("n_active_mos", 3)
+            if isinstance(operator, str):
+                if not (isinstance(fop, tuple) and fop[:2] == ("built-in", operator)):
+                    bad.append(f"the operator encoded for '{operator}' is {fop!r:.60}")
+                else:
+                    a_, k_ = fop[2], dict(fop[3])
+                    if (list(a_)[:1] or [k_.get("n_orbs")]) != [mos] or k_.get("up_then_down", (list(a_) + [None, None])[1]) is not False:
+                        bad.append(f"the built-in operator is generated with {a_} {k_}: expected {mos} orbitals in interleaved order (the encoder applies the ordering, once)")
+            elif fop is not operator:
+                bad.append("the operator encoded is not the one passed in")
+            want = {"mapping": mapping, "up_then_down": utd, "n_spinorbitals": extra.get("n_active_sos", 6), "n_electrons": extra.get("n_active_electrons", 4),
+                    "spin": extra.get("spin", 2)}
+            for k_, v_ in want.items():
+                if seen.get(k_) != v_:
+                    bad.append(f"the encoder receives {k_}={seen.get(k_)!r}, expected {v_!r}")
+            n += 1
+            rep.decide(not bad, rule, f, f.node, text=f"operator_expectation({label}) with {mapping}, up_then_down={utd}: what reaches the encoder",
+                       what="the requested operator (built-in ones generated in interleaved order on the active orbitals) is encoded with the solver's own mapping and ordering "
+                            "and the molecule's (or the caller's) register size, electron number and spin",
+                       reason="; ".join(bad[:2]))
+    rep.floor("operator_expectation folds up to the encoder", n, 16)
 
 
 def _ref_default_falls_back(f: FunctionInfo) -> bool:
